@@ -607,18 +607,20 @@ theorem rejects_poly_more (p : Array K) (x : K) (n : Nat) :
     (p.size = 0 → Poly.eval p x = .error .unwrap ∧ Poly.derivative p = .error .unwrap ∧
       Poly.trim p = .error .arith) ∧
     (p.size < n → Poly.derivativeN p n = .error .unwrap) ∧
-    (p.size ≤ n → Poly.derivativeAt p x n = .error .unwrap) := by
-  refine ⟨fun h => ?_, derivativeN_rejects p n, fun h => ?_⟩
+    (p.size < n → Poly.derivativeAt p x n = .error .unwrap) ∧
+    (p.size = n → Poly.derivativeAt p x n = .ok 0) := by
+  refine ⟨fun h => ?_, derivativeN_rejects p n, fun h => ?_, fun h => ?_⟩
   · have hp : p = #[] := Array.eq_empty_of_size_eq_zero h
     subst hp
     exact ⟨by simp [Poly.eval], by simp [Poly.derivative], by simp [Poly.trim]⟩
   · unfold Poly.derivativeAt
-    by_cases hn : p.size < n
-    · simp [derivativeN_rejects p n hn, bind, Except.bind]
-    · obtain ⟨d, h1, h2⟩ := derivativeN_size p n (by omega)
-      have hd : d = #[] := Array.eq_empty_of_size_eq_zero (by omega)
-      subst hd
-      simp [h1, bind, Except.bind, Poly.eval]
+    simp [derivativeN_rejects p n h, bind, Except.bind]
+  · -- (repair D16) order = number of coefficients: the derivative is the empty polynomial, its value is 0
+    unfold Poly.derivativeAt
+    obtain ⟨d, h1, h2⟩ := derivativeN_size p n (by omega)
+    have hd : d = #[] := Array.eq_empty_of_size_eq_zero (by omega)
+    subst hd
+    simp [h1, bind, Except.bind]
 
 /-- `polydiv` by the empty or the all-zero polynomial: the library returns `Err(&str)` (model:
     `.ok none`) — refused WITHOUT a panic, and no quotient/remainder pair is produced -/
@@ -789,7 +791,7 @@ Model/Mesh.lean
 Model/Poly.lean
 | `eval` `derivative` on the empty polynomial                    | unwrap         | C20.rejects_poly_more (B) |
 | `trim` on the empty polynomial (`len - 1`)                     | arith          | C20.rejects_poly_more (B) |
-| `derivativeN p n`, n > len; `derivativeAt p x n`, n ≥ len      | unwrap         | C20.rejects_poly_more (B), C20.derivativeN_rejects (B) |
+| `derivativeN p n`, `derivativeAt p x n`, n > len (n = len: value 0)      | unwrap         | C20.rejects_poly_more (B), C20.derivativeN_rejects (B) |
 | `get` i ≥ len                                                  | range          | C20.rejects_sparse_mesh_poly |
 | `polydiv` by the empty / zero polynomial: `Err(&str)`, no panic | (`.ok none`)  | C20.polydiv_refuses (B) |
 | `divStep` (`usub`, `aget`, `aset`; `divM`)                    | —              | internal; inside `polydiv` only `divM` can fail (C12.divStep_size, C12D) |
